@@ -763,6 +763,73 @@ def gen_chains_random(seed, n, maxlen=14, per_program=8):
     return out
 
 
+# ---------------------------------------------------------------------------------------- derived (C16, C17)
+def top_names(prog, kind):
+    return [str(t[1][1]) for t in prog[1:] if t[0] == kind]
+
+
+def eligible_for_permutation(prog):
+    """C16's hypothesis: no duplicate struct / constant / function names."""
+    for k in ("struct", "const", "fn"):
+        n = top_names(prog, k)
+        if len(n) != len(set(n)):
+            return False
+    return len(prog) > 2
+
+
+def permutation_of(prog, rng):
+    """A permutation of the top-level statements that keeps the constants' relative order."""
+    tops = prog[1:]
+    idx = list(range(len(tops)))
+    rng.shuffle(idx)
+    shuffled = [tops[i] for i in idx]
+    consts = [t for t in tops if t[0] == "const"]
+    k = 0
+    out = []
+    for t in shuffled:
+        if t[0] == "const":
+            out.append(consts[k])
+            k += 1
+        else:
+            out.append(t)
+    return ["program"] + out
+
+
+def all_permutations_of(prog, limit=720):
+    import itertools
+    tops = prog[1:]
+    consts = [t for t in tops if t[0] == "const"]
+    seen = 0
+    for perm in itertools.permutations(range(len(tops))):
+        cs = [tops[i] for i in perm if tops[i][0] == "const"]
+        if cs != consts:
+            continue
+        yield ["program"] + [tops[i] for i in perm]
+        seen += 1
+        if seen >= limit:
+            return
+
+
+def stub_body(j):
+    return ["body", ["ret", ["expr", ["name", ["id", Q("__stub_%d" % j), 9000 + j, 0]]]]]
+
+
+def stub_variants(prog):
+    """v_0: every function body replaced by a stub that fails with a recognisable error;
+    v_i: all bodies but the i-th replaced.  Returns [(variant, keep_index or None)]."""
+    fn_pos = [k for k, t in enumerate(prog) if k > 0 and t[0] == "fn"]
+    out = []
+    for keep in [None] + list(range(len(fn_pos))):
+        v = list(prog)
+        for j, k in enumerate(fn_pos):
+            if keep is None or j != keep:
+                t = list(prog[k])
+                t[4] = stub_body(j)
+                v[k] = t
+        out.append((v, keep))
+    return out
+
+
 def generate(seed, n_wf, n_fault, n_free, n_known=0):
     """Deterministic batch: list of (program, meta)."""
     out = []
